@@ -388,6 +388,41 @@ func runC23(c *Ctx) {
 		}
 	}
 
+	r5 := c.Rule("R5", "checkCow declares a backup `present but empty` (nil data, ok = true) only when the file has no bytes: every such return lies behind `len(data) == 0`; a backup with content is either returned (after it verified) or rejected - an all-zero block is a valid pre-image of a never-written block", 2)
+	{
+		f := w.Fn("fs.hashmap.checkCow")
+		g := w.G(f)
+		c.Analysed(f)
+		info := f.Pkg.TypesInfo
+		isEmptyOK := func(n *GNode) bool {
+			if n.Ret == nil || len(n.Ret.Results) != 3 {
+				return false
+			}
+			return isNilLit(info, n.Ret.Results[0]) && isBoolLit(info, n.Ret.Results[1], true)
+		}
+		lenZero := g.condNodes(func(e ast.Expr) bool {
+			be, ok := e.(*ast.BinaryExpr)
+			if !ok || be.Op != token.EQL {
+				return false
+			}
+			call, ok := ast.Unparen(be.X).(*ast.CallExpr)
+			if !ok || len(call.Args) != 1 {
+				return false
+			}
+			id, ok := ast.Unparen(call.Fun).(*ast.Ident)
+			if !ok || id.Name != "len" {
+				return false
+			}
+			tv := info.Types[be.Y]
+			return tv.Value != nil && tv.Value.String() == "0"
+		})
+		c.Check(len(g.Find(isEmptyOK)) >= 1 && len(lenZero) >= 1, r5, "checkCow: empty-backup return and its length test present", f.Decl.Pos(), "present", "no `return nil, true, nil` / `len(data) == 0` found", nil)
+		// reachable through any other way than the true edge of len(data)==0, or through that leaf's FALSE edge followed by another test?
+		offs := g.ReachableWithout(edgeCut(lenZero, 1), isEmptyOK)
+		c.Offences(g, offs, r5, "checkCow: only a zero-length backup counts as empty", f.Decl.Pos(), "`return nil, true, nil` only on len(data) == 0",
+			"a backup file that has content can be declared empty (e.g. because it is all zeros): restoreFromCow then restores nothing and reports success, the torn block that failed its checksum is decoded as if it had been repaired, and the good backup is deleted")
+	}
+
 	r4 := c.Rule("R4", "the verifier itself: unmarshalData accepts a block only when the CRC32 of its data section equals the stored trailer, or when the WHOLE block (data and trailer) is zero", 3)
 	verifierRule(c, r4)
 }
